@@ -25,7 +25,7 @@ EXPLANATION = ('theorems C06_* (coq/props/C06.v) hold for every rectangular tabl
                'partition, order, columns, identity, idempotence and find_ follow on the spec; the correspondence ties the concrete model to /repo')
 TRUSTED = ['modelled, not verified: coq/model/M_filter.v + M_table.v (tied by the correspondence only)',
            'regexes restricted to literal patterns (re.escape): pattern.search = substring test; with re.I = substring test on ASCII-lowercased strings; "^" + literal with re.M = some line starts with it',
-           'kwargs_support / callables restricted to the named set of M_table.rowfn (incl. data-capturing predicates `x in <list>` built as closures of one factory, bound methods, lambdas re-created in a loop)']
+           'callables are also spelled with keyword-only parameters named after columns ((a, *, b), (*, a, b), (a, *, b=default): the column wins over the default); kwargs_support / callables restricted to the named set of M_table.rowfn (incl. data-capturing predicates `x in <list>` built as closures of one factory, bound methods, lambdas re-created in a loop)']
 ASSUMPTIONS = ['cells are None, ints, half-integer floats, NaN objects, ASCII strings; +-inf cells and conditions are generated and modelled as the code does (pyg_base.is_nan counts inf as missing: inc(x=nan) also selects inf rows, inc(x=inf) NaN rows); the text does not decide the MEMBERSHIP of such rows, so the oracle claims for them only that inc/exc partition the rows in order and keep the columns',
                'a conjunction spelled across keyword filters and positional dicts is the flattened list kw ++ dict1 ++ dict2 (model: QFilters + dict_of); when one column gets two '
                'different conditions in one call the model follows the code (the later group wins) but the oracle only claims that inc/exc still partition the rows in order',
@@ -41,8 +41,8 @@ LEVEL_NOTE = 'model tied to the source by the differential run only; regexes lit
 TECHNIQUE = 'Coq refinement proof (sequential masks = filter by the conjunction) + differential correspondence in vm_compute + predicate oracle'
 
 # column names: plain ones and names made only of the letters of 'find_' / starting with them (find_<col> must cut the PREFIX 'find_', not a character set)
-NAMES = ['a', 'b', 'c', 'id', 'name', 'date', 'f', 'n1', '_x', 'find_me', 'dd', 'key']
-NAME_PAIRS = [('a', 'b'), ('id', 'name'), ('f', 'date'), ('_x', 'n1'), ('find_me', 'dd'), ('name', 'id'), ('dd', 'f')]
+NAMES = ['a', 'b', 'c', 'id', 'name', 'date', 'f', 'n1', '_x', 'find_me', 'dd', 'key', 'columns', 'data']
+NAME_PAIRS = [('a', 'b'), ('id', 'name'), ('f', 'date'), ('_x', 'n1'), ('find_me', 'dd'), ('name', 'id'), ('dd', 'f'), ('columns', 'data'), ('data', 'a')]
 
 def cond_coq(c):
     if 'v' in c: return '(CVal %s)' % cell_coq(c['v'])
@@ -71,7 +71,7 @@ def cond_py(c, conv):
 
 def call_with(method, q, conv):
     if 'none' in q: return method()
-    if 'f' in q: return method(mk_pred(q['f'], conv))
+    if 'f' in q: return method(mk_pred(q['f'], conv, q.get('sig', 'pos')))
     kw, d1, d2 = groups_of(q)
     conv_ = lambda g: {k: cond_py(c, conv) for k, c in g}
     pos = ([conv_(d1)] if d1 is not None else []) + ([conv_(d2)] if d2 is not None else [])
@@ -143,9 +143,22 @@ def factories(col):
         _FACT[col] = ns
     return _FACT[col]
 
-def mk_pred(f, conv):
-    if f[0] != 'in': return mk_rowfn(f)
-    vals = [conv(x) for x in f[2]]; ns = factories(f[1]); sp = f[3] if len(f) > 3 else 'closure'
+SENTINEL = 12345      # default of a keyword-only parameter that is named after a column: the column's cell must win
+def signature(args, sig):
+    """'pos': (a, b)   'kwonly': (a, *, b) / (*, a)   'kwall': (*, a, b)   'kwdefault': (a, *, b=SENTINEL) / (*, a=SENTINEL)"""
+    if sig == 'kwall': return '*, ' + ', '.join(args)
+    if sig in ('kwonly', 'kwdefault'):
+        d = '=%d' % SENTINEL if sig == 'kwdefault' else ''
+        return ('*, %s%s' % (args[0], d)) if len(args) == 1 else '%s, *, %s' % (args[0], ', '.join(a + d for a in args[1:]))
+    return ', '.join(args)
+def mk_pred(f, conv, sig='pos'):
+    if f[0] != 'in':
+        if sig == 'pos': return mk_rowfn(f)
+        body = {'coalesce': '{1} if {0} is None else {0}', 'isnone': '1 if {0} is None else 0', 'ident': '{0}', 'eq': '1 if {0} == {1} else 0'}[f[0]].format(*f[1:])
+        return eval('lambda %s: %s' % (signature(f[1:], sig), body))
+    vals = [conv(x) for x in f[2]]; sp = f[3] if len(f) > 3 else 'closure'
+    if sig != 'pos': return eval('lambda vals: (lambda %s: %s in vals)' % (signature([f[1]], sig), f[1]))(vals)
+    ns = factories(f[1])
     if sp == 'method': return ns['Band'](vals).holds
     if sp == 'loop': return ns['looped']([[], vals])[1]
     return ns['above'](vals)
@@ -208,7 +221,7 @@ def judge(q, snap, r_inc, r_exc, r_inc2, conv):
 def build(kvs, conv):
     kv = {}
     for n, v in kvs: kv[n] = conv(v['S']) if 'S' in v else [conv(x) for x in v['L']]
-    return dictable(**kv)
+    return dictable(kv) if {'columns', 'data'} & set(kv) else dictable(**kv)      # columns called like the constructor's parameters: from a dict
 
 def impl_seq(case):
     """several inc/exc calls one after the other in this process, on shared table objects: every call is judged on its own,
@@ -357,6 +370,12 @@ def gen_cases(rng, tier):
                     ks_ = [f[0] for f in fs[pos:pos + size]]; ok = ok and len(set(ks_)) == len(ks_); pos += size
                 if ok: q = {'filters': fs, 'form': 'split', 'groups': g}
                 else: q = {'filters': fs[:len(ks)], 'form': q['form']}
+        if 'f' in q and rng.random() < 0.45:
+            fa = [q['f'][1]] if q['f'][0] == 'in' else q['f'][1:]
+            sig = rng.choice(['kwonly', 'kwall', 'kwdefault'])
+            defaulted = fa if len(fa) == 1 else fa[1:]
+            if sig == 'kwdefault' and any(a_ not in names for a_ in defaulted): sig = 'kwonly'
+            q['sig'] = sig
         cases.append({'kvs': kvs, 'q': q, 'fkey': rng.choice(names + (['z'] if rng.random() < 0.03 else [])), 'kind': 'random'})
     # sizes far beyond 0-6 rows: 101-200 rows, one or two conditions selecting a proper subset / nothing / everything
     # +-inf cells against NaN / inf conditions (value and list spellings): membership undecided, the partition laws are not
